@@ -204,10 +204,12 @@ class Harness(object):
 
     def op_psub(self, op, before):
         pid = self._pid(op[1])
-        if pid is None or self._lead_blocks(pid):
+        if pid is None:
             return
         bal = self.b.get_account_cash_balance(self.b.base_currency)
         a = self._amount(op[2], bal)
+        if self._lead_blocks(pid):
+            return self._transfer_while_leading(lambda: self.b.subscribe_funds_to_portfolio(pid, a), op)
         self.valid_ops += 1
         nh = len(self.b.portfolios[pid].history)
         self.b.subscribe_funds_to_portfolio(pid, a)
@@ -223,12 +225,14 @@ class Harness(object):
 
     def op_pwd(self, op, before):
         pid = self._pid(op[1])
-        if pid is None or self._lead_blocks(pid):
+        if pid is None:
             return
         bal = self.b.get_portfolio_cash_balance(pid)
         if bal < 0:
             return
         a = self._amount(op[2], bal)
+        if self._lead_blocks(pid):
+            return self._transfer_while_leading(lambda: self.b.withdraw_funds_from_portfolio(pid, a), op)
         self.valid_ops += 1
         nh = len(self.b.portfolios[pid].history)
         self.b.withdraw_funds_from_portfolio(pid, a)
@@ -241,6 +245,33 @@ class Harness(object):
         self.pclock[pid] = max(self.pclock[pid], self.b.current_dt)
         if a == bal and a > 0:
             self.flags.add('withdraw_exact_balance')
+
+    def _transfer_while_leading(self, call, op):
+        """The portfolio's own clock is ahead of the broker's (after a future-dated direct deposit): the portfolio
+        refuses the transfer.  The ledgers are left as they are, so any cash that moved shows up in the invariants."""
+        try:
+            call()
+        except (ValueError, KeyError):
+            self.count('transfers_refused_while_portfolio_leads')
+            self.flags.add('transfer_refused_portfolio_leads')
+            return
+        raise Violation('%s: a transfer stamped earlier than the portfolio clock was accepted' % (op,))
+
+    def op_pdeposit(self, op, before):
+        """A valid direct deposit on a broker-owned portfolio, dated `minutes` after its clock."""
+        _, pi, minutes, amount = op
+        pid = self._pid(pi)
+        if pid is None:
+            return
+        port = self.b.portfolios[pid]
+        later = max(self.b.current_dt, port.current_dt) + pd.Timedelta(minutes=minutes)
+        self.valid_ops += 1
+        port.subscribe_funds(later, amount)
+        self.cash[pid] += F(amount)
+        self.hist[pid].append(('subscription', F(amount), self.cash[pid]))
+        self._bump(pid, F(amount), self.cash[pid])
+        self.pclock[pid] = max(self.pclock[pid], later)
+        self.flags.add('direct_future_deposit')
 
     def op_order(self, op, before):
         _, pi, ai, how, mag, sign = op
@@ -835,7 +866,7 @@ def config_st(draw, fees=True):
     }
 
 
-clock_st = st.tuples(st.just('clock'), st.sampled_from([0, 0, 0, 1, 1, 2, 3]),
+clock_st = st.tuples(st.just('clock'), st.sampled_from([0, 0, 0, 1, 1, 2, 3, 7, 28, 30, 31, 61]),
                      st.one_of(st.sampled_from(OPEN_TODS), st.sampled_from(TODS)).map(list)).map(list)
 
 
@@ -940,7 +971,7 @@ def make_machine(mode, rec, part):
             self._do(['order', p, a, 'any', mag, sign])
             self._do(['clock', dd, list(tod)])
 
-        @rule(dd=st.sampled_from([0, 0, 1, 3]), tod=st.sampled_from(OPEN_TODS))
+        @rule(dd=st.sampled_from([0, 0, 1, 3, 28, 30, 31]), tod=st.sampled_from(OPEN_TODS))
         def clock_open(self, dd, tod):
             self._do(['clock', dd, list(tod)])
 
@@ -950,6 +981,11 @@ def make_machine(mode, rec, part):
               submit=st.sampled_from([True, True, True, False]))
         def exec_batch(self, p, specs, submit):
             self._do(['exec', p, specs, submit])
+
+        @precondition(lambda self: self.h is not None and self.h.pids)
+        @rule(p=st.integers(0, 3), minutes=st.sampled_from([0, 1, 30, 600]), amount=st.sampled_from([0.0, 1.0, 250.0, 1e4]))
+        def direct_deposit(self, p, minutes, amount):
+            self._do(['pdeposit', p, minutes, amount])
 
         @rule(a=st.integers(0, 4), qt=quote_st())
         def quote(self, a, qt):
